@@ -102,7 +102,7 @@ class Three:
 
         self.fn = fn
         self.R, self.N, self.T = fn("inRep", B)(u), fn("inNonrep", B)(u), fn("inThird", B)(u)
-        h.ctx.assume(z3.And(z3.Not(z3.And(self.R, self.N)), z3.Not(z3.And(self.R, self.T)), z3.Not(z3.And(self.N, self.T))))
+        h.forall_rows(root, z3.And(z3.Not(z3.And(self.R, self.N)), z3.Not(z3.And(self.R, self.T)), z3.Not(z3.And(self.N, self.T))))
         h.ctx.assume(z3.Implies(fips(root.u) == fips(root.u2), root.u == root.u2))
         e = estimand
         self.e = e
@@ -132,7 +132,7 @@ class Three:
         self.third = frames.base_frame(root, self.T, cols("T"), "geographic_unit_fips")
         # V2: counts are non-negative whole numbers; previous result + 1 >= 1
         if e != "margin":
-            h.ctx.assume(z3.And(self.res >= 0, self.last >= 1))
+            h.forall_rows(root, z3.And(self.res >= 0, self.last >= 1))
 
     def gsum(self, which, keys, term, extra_dom=None):
         """Σ over the rows of frame `which` whose key tuple equals the generic group of `keys` (spec side)."""
